@@ -1,0 +1,73 @@
+//go:build verif
+
+// Verification contracts for package server (comment-only; compiled only with -tags verif).
+// Read by /verif/cmd/gvc; see /verif/DESIGN.md for the contract language.
+
+package server
+
+// ---------------------------------------------------------------------------
+// C20: no request crashes a gRPC handler. The handlers are entered with the server that New built: configuration,
+// datastore map and its lock in place, every registered datastore built by datastore.New (configuration, cache and
+// schema clients, locks and transaction manager in place). The request is arbitrary.
+// assumed of the library: lower-casing leaves the lower-case protocol names as they are
+//@ axiom lower_case_protocol_names: strings.ToLower("netconf") == "netconf" && strings.ToLower("gnmi") == "gnmi"
+// assumed of the gRPC runtime: when it reports peer information, the peer and its address are there
+//@ extern google.golang.org/grpc/peer.FromContext
+//@   noeffect
+//@   ensures r1 ==> r0 != nil && r0.Addr != nil
+
+// assumed of the library: only an error is some error
+//@ extern errors.Is
+//@   noeffect
+//@   ensures result ==> err != nil
+// the error values of the packages are initialised before any handler runs
+//@ pred packagesInitialised() = datastore.ErrDatastoreLocked != nil && types.ErrTransactionOngoing != nil
+
+//@ pred dsBuilt(d) = d != nil && d.config != nil && d.config.SBI != nil && d.config.Schema != nil && d.cacheClient != nil && d.schemaClient != nil && d.m != nil && d.md != nil && d.dmutex != nil &&
+//@        inv_TM(d.transactionManager) && d.deviationClients != nil && d.currentIntentsDeviations != nil
+//@ pred serverBuilt(s) = s != nil && s.config != nil && s.md != nil && s.datastores != nil && allstr(k, present(s.datastores, k) ==> dsBuilt(s.datastores[k]))
+
+//@ func (*Server).ListDataStore
+//@   props C20
+//@   requires serverBuilt(s)
+//@ func (*Server).GetDataStore
+//@   props C20
+//@   requires serverBuilt(s)
+//@ func (*Server).CreateDataStore
+//@   props C20
+//@   requires serverBuilt(s)
+//@ func (*Server).DeleteDataStore
+//@   props C20
+//@   requires serverBuilt(s)
+//@ func (*Server).Discard
+//@   props C20
+//@   requires serverBuilt(s)
+//@ func (*Server).WatchDeviations
+//@   props C20
+//@   requires serverBuilt(s)
+//@   requires handed_a_stream_by_the_runtime: stream != nil
+//@ func (*Server).datastoreToRsp
+//@   props C20
+//@   requires serverBuilt(s) && dsBuilt(ds)
+//@ func (*Server).GetData
+//@   props C20
+//@   requires serverBuilt(s)
+//@   requires handed_a_stream_by_the_runtime: stream != nil
+//@ func (*Server).Subscribe
+//@   props C20
+//@   requires serverBuilt(s)
+//@   requires handed_a_stream_by_the_runtime: stream != nil
+//@ func (*Server).Watch
+//@   props C20
+//@   requires serverBuilt(s)
+//@   requires handed_a_stream_by_the_runtime: stream != nil
+//@ func (*Server).TransactionSet
+//@   props C20
+//@   requires serverBuilt(s) && packagesInitialised()
+//@ func (*Server).TransactionConfirm
+//@   props C20
+//@   requires serverBuilt(s) && packagesInitialised()
+//@ func (*Server).TransactionCancel
+//@   props C20
+//@   requires serverBuilt(s) && packagesInitialised()
+//@ sweep C20: translateInternalToGrpcError
